@@ -7,62 +7,318 @@ tree-level diff theorems (C04, C07, C08, C12).
 import MstVerif.Proofs.Hash
 import MstVerif.Proofs.Traverse
 
+set_option linter.unusedSectionVars false
+set_option linter.unusedVariables false
+
 namespace Mst
 variable {K V D : Type} [LinearOrder K]
 
+/-! ### List toolkit: strictly key-ascending association lists -/
+
+/-- Keys strictly ascending, stated on the pairs. -/
+def PW (l : List (K × V)) : Prop := l.Pairwise (fun a b => a.1 < b.1)
+
+theorem PW_of_map {l : List (K × V)} (h : (l.map Prod.fst).Pairwise (· < ·)) : PW l :=
+  List.pairwise_map.1 h
+
+theorem Pg.Sorted.pw {p : Pg K V D} (h : p.Sorted) : PW p.content := PW_of_map h
+
+theorem Nd.Sorted.pw {n : Nd K V D} (h : n.Sorted) : PW n.content := PW_of_map h
+
+theorem PW.left {l1 l2 : List (K × V)} (h : PW (l1 ++ l2)) : PW l1 :=
+  (List.pairwise_append.1 h).1
+
+theorem PW.right {l1 l2 : List (K × V)} (h : PW (l1 ++ l2)) : PW l2 :=
+  (List.pairwise_append.1 h).2.1
+
+theorem PW.cross {l1 l2 : List (K × V)} (h : PW (l1 ++ l2)) {x y : K × V}
+    (hx : x ∈ l1) (hy : y ∈ l2) : x.1 < y.1 :=
+  (List.pairwise_append.1 h).2.2 x hx y hy
+
+theorem mem_of_head? {α : Type} {l : List α} {a : α} (h : l.head? = some a) : a ∈ l := by
+  cases l with
+  | nil => simp at h
+  | cons y ys =>
+    simp only [List.head?_cons, Option.some.injEq] at h
+    subst h; exact List.mem_cons_self ..
+
+theorem mem_of_getLast? {α : Type} {l : List α} {a : α} (h : l.getLast? = some a) : a ∈ l := by
+  obtain ⟨ys, rfl⟩ := List.getLast?_eq_some_iff.1 h
+  simp
+
+/-- The head of a key-ascending list carries the least key. -/
+theorem PW.head_le {l : List (K × V)} (hs : PW l) {a x : K × V}
+    (ha : l.head? = some a) (hx : x ∈ l) : a.1 ≤ x.1 := by
+  cases l with
+  | nil => simp at ha
+  | cons y ys =>
+    simp only [List.head?_cons, Option.some.injEq] at ha
+    subst ha
+    rcases List.mem_cons.1 hx with rfl | hx
+    · exact le_refl _
+    · exact le_of_lt ((List.pairwise_cons.1 hs).1 x hx)
+
+/-- The last entry of a key-ascending list carries the greatest key. -/
+theorem PW.le_last {l : List (K × V)} (hs : PW l) {b x : K × V}
+    (hb : l.getLast? = some b) (hx : x ∈ l) : x.1 ≤ b.1 := by
+  obtain ⟨ys, rfl⟩ := List.getLast?_eq_some_iff.1 hb
+  rcases List.mem_append.1 hx with hx | hx
+  · exact le_of_lt (hs.cross hx (by simp))
+  · simp only [List.mem_singleton] at hx
+    subst hx; exact le_refl _
+
+theorem PW.lookup_unique : ∀ {l : List (K × V)}, PW l → ∀ (k : K) (v w : V),
+    (k, v) ∈ l → (k, w) ∈ l → v = w
+  | [], _, _, _, _, h1, _ => by simp at h1
+  | x :: xs, hs, k, v, w, h1, h2 => by
+    obtain ⟨hx, hxs⟩ := List.pairwise_cons.1 hs
+    rcases List.mem_cons.1 h1 with e1 | h1
+    · rcases List.mem_cons.1 h2 with e2 | h2
+      · have := e1.trans e2.symm
+        simpa using this
+      · have := hx _ h2
+        rw [← e1] at this
+        exact absurd this (lt_irrefl _)
+    · rcases List.mem_cons.1 h2 with e2 | h2
+      · have := hx _ h1
+        rw [← e2] at this
+        exact absurd this (lt_irrefl _)
+      · exact PW.lookup_unique hxs k v w h1 h2
+
+/-- Inversion of `rangeOf`. -/
+theorem rangeOf_eq_some (hc : HashCfg K V D) (q : Pg K V D) (r : PR K D)
+    (h : rangeOf hc q = some r) :
+    ∃ a z, q.content.head? = some a ∧ q.content.getLast? = some z ∧
+      r.start = a.1 ∧ r.end_ = z.1 := by
+  unfold rangeOf at h
+  split at h
+  · rename_i a b d h1 h2 h3
+    simp only [Option.some.injEq] at h
+    subst h
+    exact ⟨a, b, h1, h2, rfl, rfl⟩
+  · simp at h
+
+/-! ### Sub-pages -/
+
+mutual
+theorem preorder_isSomePg : ∀ (p q : Pg K V D), q ∈ p.preorder → q.isSome = true
+  | .none, q, hq => by simp [Pg.preorder] at hq
+  | .some L c n h, q, hq => by
+    simp only [Pg.preorder, List.mem_cons, List.mem_append] at hq
+    rcases hq with rfl | hq | hq
+    · rfl
+    · exact preorder_isSomeNd n q hq
+    · exact preorder_isSomePg h q hq
+theorem preorder_isSomeNd : ∀ (n : Nd K V D) (q : Pg K V D), q ∈ n.preorder → q.isSome = true
+  | .nil, q, hq => by simp [Nd.preorder] at hq
+  | .cons lt k v tl, q, hq => by
+    simp only [Nd.preorder, List.mem_append] at hq
+    rcases hq with hq | hq
+    · exact preorder_isSomePg lt q hq
+    · exact preorder_isSomeNd tl q hq
+end
+
 /-- Every page listed by `preorder` is a real (`some`) page. -/
-theorem preorder_isSome (p q : Pg K V D) (hq : q ∈ p.preorder) : q.isSome = true := by
-  sorry
+theorem preorder_isSome (p q : Pg K V D) (hq : q ∈ p.preorder) : q.isSome = true :=
+  preorder_isSomePg p q hq
 
 /-- The root (if present) is the first page of its own pre-order. -/
 theorem preorder_head (L : Nat) (c : Option D) (n : Nd K V D) (h : Pg K V D) :
     (Pg.some L c n h).preorder.head? = some (Pg.some L c n h) := by
-  sorry
+  simp [Pg.preorder]
+
+mutual
+theorem preorder_LvPg (lvl : K → Nat) : ∀ (p : Pg K V D) (b : Nat) (q : Pg K V D),
+    LvPg lvl b p → q ∈ p.preorder → ∃ b', LvPg lvl b' q
+  | .none, _, q, _, hq => by simp [Pg.preorder] at hq
+  | .some L c n h, b, q, hlv, hq => by
+    simp only [Pg.preorder, List.mem_cons, List.mem_append] at hq
+    rcases hq with rfl | hq | hq
+    · exact ⟨b, hlv⟩
+    · simp only [LvPg] at hlv
+      exact preorder_LvNd lvl n L q hlv.2.2.1 hq
+    · simp only [LvPg] at hlv
+      exact preorder_LvPg lvl h L q hlv.2.2.2 hq
+theorem preorder_LvNd (lvl : K → Nat) : ∀ (n : Nd K V D) (L : Nat) (q : Pg K V D),
+    LvNd lvl L n → q ∈ n.preorder → ∃ b', LvPg lvl b' q
+  | .nil, _, q, _, hq => by simp [Nd.preorder] at hq
+  | .cons lt k v tl, L, q, hlv, hq => by
+    simp only [LvNd] at hlv
+    simp only [Nd.preorder, List.mem_append] at hq
+    rcases hq with hq | hq
+    · exact preorder_LvPg lvl lt L q hlv.1 hq
+    · exact preorder_LvNd lvl tl L q hlv.2.2 hq
+end
 
 /-- Sub-pages inherit stratification (with some bound), non-emptiness and cleanliness. -/
 theorem preorder_Lv (lvl : K → Nat) (b : Nat) (p q : Pg K V D) (hlv : LvPg lvl b p)
-    (hq : q ∈ p.preorder) : ∃ b', LvPg lvl b' q := by
-  sorry
+    (hq : q ∈ p.preorder) : ∃ b', LvPg lvl b' q :=
+  preorder_LvPg lvl p b q hlv hq
+
+mutual
+theorem preorder_cleanPg (hc : HashCfg K V D) : ∀ (p q : Pg K V D),
+    CleanPg hc p → q ∈ p.preorder → CleanPg hc q
+  | .none, q, _, hq => by simp [Pg.preorder] at hq
+  | .some L c n h, q, hcl, hq => by
+    simp only [Pg.preorder, List.mem_cons, List.mem_append] at hq
+    rcases hq with rfl | hq | hq
+    · exact hcl
+    · simp only [CleanPg] at hcl
+      exact preorder_cleanNd hc n q hcl.2.1 hq
+    · simp only [CleanPg] at hcl
+      exact preorder_cleanPg hc h q hcl.2.2 hq
+theorem preorder_cleanNd (hc : HashCfg K V D) : ∀ (n : Nd K V D) (q : Pg K V D),
+    CleanNd hc n → q ∈ n.preorder → CleanPg hc q
+  | .nil, q, _, hq => by simp [Nd.preorder] at hq
+  | .cons lt k v tl, q, hcl, hq => by
+    simp only [CleanNd] at hcl
+    simp only [Nd.preorder, List.mem_append] at hq
+    rcases hq with hq | hq
+    · exact preorder_cleanPg hc lt q hcl.1 hq
+    · exact preorder_cleanNd hc tl q hcl.2 hq
+end
 
 theorem preorder_clean (hc : HashCfg K V D) (p q : Pg K V D) (hcl : CleanPg hc p)
-    (hq : q ∈ p.preorder) : CleanPg hc q := by
-  sorry
+    (hq : q ∈ p.preorder) : CleanPg hc q :=
+  preorder_cleanPg hc p q hcl hq
+
+mutual
+theorem preorder_infixPg : ∀ (p q : Pg K V D), q ∈ p.preorder →
+    ∃ pre suf, p.content = pre ++ q.content ++ suf
+  | .none, q, hq => by simp [Pg.preorder] at hq
+  | .some L c n h, q, hq => by
+    simp only [Pg.preorder, List.mem_cons, List.mem_append] at hq
+    rcases hq with rfl | hq | hq
+    · exact ⟨[], [], by simp⟩
+    · obtain ⟨pre, suf, e⟩ := preorder_infixNd n q hq
+      exact ⟨pre, suf ++ h.content, by simp [Pg.content, e]⟩
+    · obtain ⟨pre, suf, e⟩ := preorder_infixPg h q hq
+      exact ⟨n.content ++ pre, suf, by simp [Pg.content, e]⟩
+theorem preorder_infixNd : ∀ (n : Nd K V D) (q : Pg K V D), q ∈ n.preorder →
+    ∃ pre suf, n.content = pre ++ q.content ++ suf
+  | .nil, q, hq => by simp [Nd.preorder] at hq
+  | .cons lt k v tl, q, hq => by
+    simp only [Nd.preorder, List.mem_append] at hq
+    rcases hq with hq | hq
+    · obtain ⟨pre, suf, e⟩ := preorder_infixPg lt q hq
+      exact ⟨pre, suf ++ (k, v) :: tl.content, by simp [Nd.content, e]⟩
+    · obtain ⟨pre, suf, e⟩ := preorder_infixNd tl q hq
+      exact ⟨lt.content ++ (k, v) :: pre, suf, by simp [Nd.content, e]⟩
+end
 
 /-- The subtree content of a sub-page is a contiguous segment of the whole in-order content. -/
 theorem preorder_infix (p q : Pg K V D) (hq : q ∈ p.preorder) :
-    ∃ pre suf, p.content = pre ++ q.content ++ suf := by
-  sorry
+    ∃ pre suf, p.content = pre ++ q.content ++ suf :=
+  preorder_infixPg p q hq
+
+theorem preorder_content_subset (p q : Pg K V D) (hq : q ∈ p.preorder) :
+    ∀ x ∈ q.content, x ∈ p.content := by
+  obtain ⟨pre, suf, e⟩ := preorder_infix p q hq
+  intro x hx
+  rw [e]; simp [hx]
+
+theorem Nd.preorder_content_subset (n : Nd K V D) (q : Pg K V D) (hq : q ∈ n.preorder) :
+    ∀ x ∈ q.content, x ∈ n.content := by
+  obtain ⟨pre, suf, e⟩ := preorder_infixNd n q hq
+  intro x hx
+  rw [e]; simp [hx]
 
 /-- In a sorted tree, every entry of the whole tree whose key lies between the smallest and the
 largest key of a sub-page belongs to that sub-page. -/
 theorem preorder_contiguous (p q : Pg K V D) (hs : p.Sorted) (hq : q ∈ p.preorder)
     (a b : K × V) (ha : q.content.head? = some a) (hb : q.content.getLast? = some b)
     (kv : K × V) (hkv : kv ∈ p.content) (h1 : a.1 ≤ kv.1) (h2 : kv.1 ≤ b.1) : kv ∈ q.content := by
-  sorry
+  obtain ⟨pre, suf, e⟩ := preorder_infix p q hq
+  have hpw : PW (pre ++ q.content ++ suf) := e ▸ hs.pw
+  rw [e] at hkv
+  rcases List.mem_append.1 hkv with hkv | hkv
+  · rcases List.mem_append.1 hkv with hkv | hkv
+    · have := hpw.left.cross hkv (mem_of_head? ha)
+      exact absurd (lt_of_lt_of_le this h1) (lt_irrefl _)
+    · exact hkv
+  · have := hpw.cross (List.mem_append_right _ (mem_of_getLast? hb)) hkv
+    exact absurd (lt_of_lt_of_le this h2) (lt_irrefl _)
 
 /-- A key occurs at most once in a sorted tree: membership determines the value. -/
 theorem sorted_lookup_unique (p : Pg K V D) (hs : p.Sorted) (k : K) (v w : V)
-    (h1 : (k, v) ∈ p.content) (h2 : (k, w) ∈ p.content) : v = w := by
-  sorry
+    (h1 : (k, v) ∈ p.content) (h2 : (k, w) ∈ p.content) : v = w :=
+  hs.pw.lookup_unique k v w h1 h2
+
+mutual
+theorem preorder_allToksPg (hc : HashCfg K V D) : ∀ (p q : Pg K V D), q ∈ p.preorder →
+    ∀ t ∈ q.allToks hc, t ∈ p.allToks hc
+  | .none, q, hq, _, _ => by simp [Pg.preorder] at hq
+  | .some L c n h, q, hq, t, ht => by
+    simp only [Pg.preorder, List.mem_cons, List.mem_append] at hq
+    rcases hq with rfl | hq | hq
+    · exact ht
+    · have := preorder_allToksNd hc n q hq t ht
+      simp [Pg.allToks, this]
+    · have := preorder_allToksPg hc h q hq t ht
+      simp [Pg.allToks, this]
+theorem preorder_allToksNd (hc : HashCfg K V D) : ∀ (n : Nd K V D) (q : Pg K V D), q ∈ n.preorder →
+    ∀ t ∈ q.allToks hc, t ∈ n.allToks hc
+  | .nil, q, hq, _, _ => by simp [Nd.preorder] at hq
+  | .cons lt k v tl, q, hq, t, ht => by
+    simp only [Nd.preorder, List.mem_append] at hq
+    rcases hq with hq | hq
+    · have := preorder_allToksPg hc lt q hq t ht
+      simp [Nd.allToks, this]
+    · have := preorder_allToksNd hc tl q hq t ht
+      simp [Nd.allToks, this]
+end
 
 /-- The page pre-images of a sub-page are among those of the whole tree. -/
 theorem preorder_allToks (hc : HashCfg K V D) (p q : Pg K V D) (hq : q ∈ p.preorder) :
-    ∀ t ∈ q.allToks hc, t ∈ p.allToks hc := by
-  sorry
+    ∀ t ∈ q.allToks hc, t ∈ p.allToks hc :=
+  preorder_allToksPg hc p q hq
 
 /-- `rangeOf` of a well-shaped page: it exists and its bounds are the first and last key. -/
 theorem rangeOf_some (lvl : K → Nat) (hc : HashCfg K V D) (b : Nat) (q : Pg K V D)
     (hlv : LvPg lvl b q) (hq : q.isSome = true) :
     ∃ a z d, q.content.head? = some a ∧ q.content.getLast? = some z ∧ q.trueHash hc = some d ∧
       rangeOf hc q = some { start := a.1, end_ := z.1, hash := d } := by
-  sorry
+  cases q with
+  | none => simp [Pg.isSome] at hq
+  | some L c n h =>
+    have hne := LvPg_some_content_ne_nil lvl b L c n h hlv
+    obtain ⟨a, ha⟩ : ∃ a, (Pg.some L c n h).content.head? = some a := by
+      cases hcnt : (Pg.some L c n h).content with
+      | nil => exact absurd hcnt hne
+      | cons x xs => exact ⟨x, rfl⟩
+    obtain ⟨z, hz⟩ : ∃ z, (Pg.some L c n h).content.getLast? = some z := by
+      cases hl : (Pg.some L c n h).content.getLast? with
+      | none => exact absurd (List.getLast?_eq_none_iff.1 hl) hne
+      | some z => exact ⟨z, rfl⟩
+    refine ⟨a, z, hc.h (n.hashBytes hc ++ h.hashBytes hc), ha, hz, rfl, ?_⟩
+    simp only [rangeOf, ha, hz, Pg.trueHash]
 
 /-- Spans nest: the span of a sub-page lies inside the span of the page it is listed under. -/
 theorem preorder_nested (lvl : K → Nat) (hc : HashCfg K V D) (b : Nat) (p q : Pg K V D)
     (hlv : LvPg lvl b p) (hs : p.Sorted) (hq : q ∈ p.preorder)
     (rp rq : PR K D) (hrp : rangeOf hc p = some rp) (hrq : rangeOf hc q = some rq) :
     rp.start ≤ rq.start ∧ rq.end_ ≤ rp.end_ := by
-  sorry
+  obtain ⟨ap, zp, hap, hzp, e1, e2⟩ := rangeOf_eq_some hc p rp hrp
+  obtain ⟨aq, zq, haq, hzq, e3, e4⟩ := rangeOf_eq_some hc q rq hrq
+  have hsub := preorder_content_subset p q hq
+  rw [e1, e2, e3, e4]
+  exact ⟨hs.pw.head_le hap (hsub _ (mem_of_head? haq)),
+    hs.pw.le_last hzp (hsub _ (mem_of_getLast? hzq))⟩
+
+/-- Every key below a node list's sub-page is strictly below some key of the node list itself
+(the key of the node whose `lt` child contains the sub-page). -/
+theorem Nd.preorder_lt_key : ∀ (n : Nd K V D), PW n.content → ∀ q ∈ n.preorder,
+    ∀ x ∈ q.content, ∃ y ∈ n.content, x.1 < y.1
+  | .nil, _, q, hq, _, _ => by simp [Nd.preorder] at hq
+  | .cons lt k v tl, hs, q, hq, x, hx => by
+    simp only [Nd.preorder, List.mem_append] at hq
+    rw [Nd.content] at hs
+    rcases hq with hq | hq
+    · have hx' := Mst.preorder_content_subset lt q hq x hx
+      exact ⟨(k, v), by simp [Nd.content], hs.cross hx' (List.mem_cons_self ..)⟩
+    · have htl : PW tl.content := (List.pairwise_cons.1 hs.right).2
+      obtain ⟨y, hy, hlt⟩ := Nd.preorder_lt_key tl htl q hq x hx
+      exact ⟨y, by simp [Nd.content, hy], hlt⟩
 
 /-- No proper descendant spans the whole page (so the diff's "shrink local range" loop never
 replaces a page by one of its descendants when comparing equal spans). -/
@@ -72,7 +328,29 @@ theorem descendant_not_superset (lvl : K → Nat) (hc : HashCfg K V D) (b : Nat)
     (q : Pg K V D) (hq : q ∈ n.preorder ++ h.preorder)
     (rp rq : PR K D) (hrp : rangeOf hc (.some L c n h) = some rp) (hrq : rangeOf hc q = some rq) :
     ¬ (rq.start ≤ rp.start ∧ rp.end_ ≤ rq.end_) := by
-  sorry
+  obtain ⟨ap, zp, hap, hzp, e1, e2⟩ := rangeOf_eq_some hc _ rp hrp
+  obtain ⟨aq, zq, haq, hzq, e3, e4⟩ := rangeOf_eq_some hc q rq hrq
+  have hpw : PW (n.content ++ h.content) := by
+    have := hs.pw; rwa [Pg.content] at this
+  rw [e1, e2, e3, e4]
+  rintro ⟨h1, h2⟩
+  rcases List.mem_append.1 hq with hq | hq
+  · -- `q` lies under some node key `y`; all its keys are `< y ≤` the page's last key
+    obtain ⟨y, hy, hlt⟩ := Nd.preorder_lt_key n hpw.left q hq zq (mem_of_getLast? hzq)
+    have hy' : y ∈ (Pg.some L c n h).content := by simp [Pg.content, hy]
+    have := hs.pw.le_last hzp hy'
+    exact absurd (lt_of_lt_of_le (lt_of_lt_of_le hlt this) h2) (lt_irrefl _)
+  · -- `q` lies under the high page; all its keys are above every node key
+    have haq' := preorder_content_subset h q hq aq (mem_of_head? haq)
+    simp only [LvPg] at hlv
+    obtain ⟨y, hy⟩ : ∃ y, y ∈ n.content := by
+      cases n with
+      | nil => exact absurd rfl hlv.2.1
+      | cons lt k v tl => exact ⟨(k, v), by simp [Nd.content]⟩
+    have hy' : y ∈ (Pg.some L c n h).content := by simp [Pg.content, hy]
+    have hle := hs.pw.head_le hap hy'
+    have hlt := hpw.cross hy haq'
+    exact absurd (lt_of_lt_of_le (lt_of_le_of_lt hle hlt) h1) (lt_irrefl _)
 
 /-- Direct children of a page, in traversal order: the `lt` child of each node, then the high page. -/
 def Nd.children : Nd K V D → List (Pg K V D)
@@ -83,11 +361,69 @@ def Pg.children : Pg K V D → List (Pg K V D)
   | .none => []
   | .some _ _ n h => n.children ++ (match h with | .none => [] | .some .. => [h])
 
+/-- All keys of the first page are below all keys of the second. -/
+def PgLt (q r : Pg K V D) : Prop := ∀ x ∈ q.content, ∀ y ∈ r.content, x.1 < y.1
+
+theorem Nd.children_subset : ∀ (n : Nd K V D), ∀ c ∈ n.children, ∀ x ∈ c.content, x ∈ n.content
+  | .nil, c, hc', _, _ => by simp [Nd.children] at hc'
+  | .cons lt k v tl, c, hc', x, hx => by
+    simp only [Nd.children, List.mem_append] at hc'
+    rcases hc' with hc' | hc'
+    · have : c = lt := by
+        cases lt with
+        | none => simp at hc'
+        | some L c' n' h' => simpa using hc'
+      subst this
+      simp [Nd.content, hx]
+    · have := Nd.children_subset tl c hc' x hx
+      simp [Nd.content, this]
+
+theorem Nd.children_pairwise : ∀ (n : Nd K V D), PW n.content → n.children.Pairwise PgLt
+  | .nil, _ => by simp [Nd.children]
+  | .cons lt k v tl, hs => by
+    rw [Nd.content] at hs
+    have htl : PW tl.content := (List.pairwise_cons.1 hs.right).2
+    simp only [Nd.children]
+    refine List.pairwise_append.2 ⟨?_, Nd.children_pairwise tl htl, ?_⟩
+    · cases lt with
+      | none => simp
+      | some L c' n' h' => simp
+    · intro a ha c hc' x hx y hy
+      have : a = lt := by
+        cases lt with
+        | none => simp at ha
+        | some L c' n' h' => simpa using ha
+      subst this
+      exact hs.cross hx (List.mem_cons_of_mem _ (Nd.children_subset tl c hc' y hy))
+
+theorem Pg.children_pairwise (p : Pg K V D) (hs : PW p.content) : p.children.Pairwise PgLt := by
+  cases p with
+  | none => simp [Pg.children]
+  | some L c n h =>
+    rw [Pg.content] at hs
+    simp only [Pg.children]
+    refine List.pairwise_append.2 ⟨Nd.children_pairwise n hs.left, ?_, ?_⟩
+    · cases h with
+      | none => simp
+      | some L' c' n' h' => simp
+    · intro a ha c hc' x hx y hy
+      have : c = h := by
+        cases h with
+        | none => simp at hc'
+        | some L' c' n' h' => simpa using hc'
+      subst this
+      exact hs.cross (Nd.children_subset n a ha x hx) hy
+
 /-- Sibling spans are disjoint and ascending. -/
 theorem siblings_chain (lvl : K → Nat) (hc : HashCfg K V D) (b : Nat) (p : Pg K V D)
     (hlv : LvPg lvl b p) (hs : p.Sorted) :
     (p.children.filterMap (rangeOf hc)).Pairwise (fun r s => r.end_ < s.start) := by
-  sorry
+  refine List.Pairwise.filterMap (rangeOf hc) ?_ (Pg.children_pairwise p hs.pw)
+  intro q r hqr rq hrq rr hrr
+  obtain ⟨aq, zq, haq, hzq, e1, e2⟩ := rangeOf_eq_some hc q rq (by simpa using hrq)
+  obtain ⟨ar, zr, har, hzr, e3, e4⟩ := rangeOf_eq_some hc r rr (by simpa using hrr)
+  rw [e2, e3]
+  exact hqr _ (mem_of_getLast? hzq) _ (mem_of_head? har)
 
 mutual
 def Pg.pageCount : Pg K V D → Nat
@@ -98,8 +434,22 @@ def Nd.pageCount : Nd K V D → Nat
   | .cons lt _ _ tl => lt.pageCount + tl.pageCount
 end
 
+mutual
+theorem preorder_lengthPg : ∀ (p : Pg K V D), p.preorder.length = p.pageCount
+  | .none => by simp [Pg.preorder, Pg.pageCount]
+  | .some L c n h => by
+    simp only [Pg.preorder, Pg.pageCount, List.length_cons, List.length_append,
+      preorder_lengthNd n, preorder_lengthPg h]
+    omega
+theorem preorder_lengthNd : ∀ (n : Nd K V D), n.preorder.length = n.pageCount
+  | .nil => by simp [Nd.preorder, Nd.pageCount]
+  | .cons lt k v tl => by
+    simp only [Nd.preorder, Nd.pageCount, List.length_append,
+      preorder_lengthPg lt, preorder_lengthNd tl]
+end
+
 /-- The pre-order lists every page exactly once (as many entries as there are pages). -/
-theorem preorder_length (p : Pg K V D) : p.preorder.length = p.pageCount := by
-  sorry
+theorem preorder_length (p : Pg K V D) : p.preorder.length = p.pageCount :=
+  preorder_lengthPg p
 
 end Mst
